@@ -53,6 +53,10 @@ def max_flow[Node](
             capacity[u][v] += cap
             capacity[v][u] += 0  # make the reverse residual arc visible to the BFS
 
+    if source == sink:
+        # No arc separates a node from itself: the empty flow of value 0 (the search below would never end)
+        return Result({}, 0, 0, 0)
+
     flow = defaultdict(lambda: defaultdict(int))
     total_flow = 0
     iterations = 0
